@@ -328,6 +328,7 @@ class YP(object):
 
     def asserta(self, term):
         '''asserta(Term) adds Term to the facts database at the beginning.'''
+        term = get_value(term)
         if isinstance(term, Functor):
             self.assert_fact(self.atom(term._name), term._args, False)
         elif isinstance(term, Atom):
@@ -336,6 +337,7 @@ class YP(object):
 
     def assertz(self, term):
         '''assertz(Term) adds Term to the facts database at the end.'''
+        term = get_value(term)
         if isinstance(term, Functor):
             self.assert_fact(self.atom(term._name), term._args)
         elif isinstance(term, Atom):
@@ -344,14 +346,20 @@ class YP(object):
 
     def retract(self, term):
         '''retract(Term) removes all dynamic facts matching Term and backtracks over identical clauses.'''
+        term = get_value(term)
         if isinstance(term, Functor):
             name = term._name
             args = term._args
         elif isinstance(term, Atom):
-            name = term
+            name = term.name()
             args = []
+        else:
+            raise YPException('retract: callable term expected')
 
-        remaining_clauses = self._find_predicates(name, len(args))[:]
+        try:
+            remaining_clauses = self._find_predicates(name, len(args))[:]
+        except YPException as e:
+            return
         i = 0
         while i < len(remaining_clauses):
             clause = remaining_clauses[i]
@@ -366,14 +374,21 @@ class YP(object):
 
     def retractall(self, term):
         '''retractall(Term) removes all dynamic facts matching Term, without backtracking over identical clauses.'''
+        term = get_value(term)
         if isinstance(term, Functor):
             name = term._name
             args = term._args
         elif isinstance(term, Atom):
-            name = term
+            name = term.name()
             args = []
+        else:
+            raise YPException('retractall: callable term expected')
+        try:
+            clauses = self._find_predicates(name, len(args))
+        except YPException as e:
+            clauses = []
         remaining_clauses = []
-        for clause in self._find_predicates(name, len(args)):
+        for clause in clauses:
             match = False
             for cut in clause.match(args):
                     match = True
